@@ -41,7 +41,7 @@ P = {
          'control-dependence + suspension-window path query (ast CFG)'),
  'C17': ('static decision of R17.1-R17.9: \\Recent removed at every entry to the settable universe, stored/session recent complementarity, claim pairs with clearing without suspension, read-only never a recipient, RECENT count sources, claimed set materialised, COPY does not carry the source recent mark (both backends), maildir claim only after its own rename succeeded',
          'def-use + truth-table complementarity + dominance (ast)'),
- 'C18': ('static decision of R18.1-R18.9: cached raw span = consumed span, literal branches converge, command word normalisation, writer/reader format tables agree, modified-UTF-7 encoder escapes and range tests, all line input through the {n+}-collecting reader, parsers take string arguments by value not by wire spelling, UTF-7 shift markers removed by position',
+ 'C18': ('static decision of R18.1-R18.9: cached raw span = consumed span, literal branches converge, command word normalisation, writer/reader format tables agree, modified-UTF-7 encoder escapes and range tests, all line input through the {n+}-collecting reader, parsers take string arguments by value not by wire spelling, modified-UTF-7 run encoder is base64 over UTF-16BE of the whole run (not the utf-7 codec), nothing stripped by a class containing base64 digits',
          'slice-bound equality + table agreement (ast, re._parser)'),
  'C19': ('static decision of R19.1-R19.7: gate dominance before every script operation, _state ownership, command exhaustiveness, delete-active guard, rename carries active, verbatim put/get, self-rename never reaches store-then-delete, sieve state only from verified credentials',
          'CFG dominance + dispatch exhaustiveness (ast)'),
